@@ -880,13 +880,14 @@ def witness_jobs():
 # --------------------------------------------------------------------------------------
 
 def run_prog_jobs(jobs, par=8):
-    res = PR.run_jobs(jobs, par=par, timeout=7200)
-    for i, r in enumerate(res):
-        bad = [v for v, ro in r["runs"].items() if ro.get("class") == "timeout"]
-        if bad:
-            C.log("[C01] job %s timed out (%s); re-running it alone" % (r["id"], bad))
-            j2 = dict(jobs[i], timeout=900)
-            res[i] = PR.run_jobs([j2], par=1, timeout=7200)[0]
+    res = PR.run_jobs(jobs, par=par, timeout=14400)
+    late = [i for i, r in enumerate(res) if any(ro.get("class") == "timeout" for ro in r["runs"].values())]
+    if late:
+        # the machine is shared: a timed-out job is re-run (almost) alone before it is treated as anything
+        C.log("[C01] %d job(s) timed out (%s …); re-running them with parallelism 2" % (len(late), res[late[0]]["id"]))
+        again = PR.run_jobs([jobs[i] for i in late], par=2, timeout=14400)
+        for i, r in zip(late, again):
+            res[i] = r
     return res
 
 
@@ -985,7 +986,7 @@ def program_batch(chk, gens, label, scratch, skeleton=True):
                 if toks != want:
                     chk.add_tie_break("skeleton", json.dumps({"id": r["id"], "fn": fi, "go": render(g)["main.go"]}),
                                       " ".join(toks), mskels[fi])
-                check_tmps(chk, g, r["id"], fi, tmps)
+                check_tmps(chk, g, r["id"], fi, tmps, toks)
     return nfail
 
 
@@ -1003,7 +1004,7 @@ def ds_model(lv, incdec):
     return _DS_CACHE[key]
 
 
-def check_tmps(chk, g, pid, fi, tmps):
+def check_tmps(chk, g, pid, fi, tmps, toks):
     """temporaries the compiler introduced for each op-assign action of a direct function vs GV.Desugar.desugar"""
     seen = set()
     if set(g.fns[fi]["names"]) | set(g.gnames) & {"_slice", "_index", "_struct", "_ptr", "_val"}:
@@ -1037,11 +1038,13 @@ def check_tmps(chk, g, pid, fi, tmps):
         seen.add(aid)
         want = ds_model(a[1], a[3] in (2, 3))
         got = tmps.get("a%d" % aid, [])
-        # the same action may be emitted several times (post statement copied before `continue`, fallthrough bodies)
-        n = max(1, len(got) // max(1, len(want))) if want else 1
+        # the same action may be emitted several times (post statement copied before `continue`, fallthrough bodies) or not
+        # at all (post statement of a loop whose body never completes normally and has no `continue`)
+        n = toks.count("a%d" % aid)
         chk.add_case("desugar-temps", "%s a%d lv%d op%d" % (pid, aid, a[1], a[3]), nontrivial=bool(want), kindkey="desugar-temps")
-        if got != want * n and not (not want and not got):
-            chk.add_tie_break("desugar-temps", "%s F%d action %d lv=%d op=%d" % (pid, fi, aid, a[1], a[3]), ",".join(got), ",".join(want))
+        if got != want * n:
+            chk.add_tie_break("desugar-temps", "%s F%d action %d lv=%d op=%d emitted %d time(s)" % (pid, fi, aid, a[1], a[3], n),
+                              ",".join(got), ",".join(want))
 
 
 # --------------------------------------------------------------------------------------
